@@ -64,13 +64,14 @@ def generated_programs(rng, n, **kw):
     return [g.program() for _ in range(n)]
 
 
-REGEX_ATOMS = ["a", "b", "c", ".", "\\d", "\\D", "\\s", "\\S", "[abc]", "[^ab]", "[a-c]", "[a-cx]", "(a)", "(?:ab)", "(?<n>b)", "(a|b)", "a|b", "^", "$", "\\1", "\\k<n>", "\\.", "x"]
+REGEX_ATOMS = ["a", "b", "c", ".", "\\d", "\\D", "\\s", "\\S", "[abc]", "[^ab]", "[a-c]", "[a-cx]", "(a)", "(?:ab)", "(?<n>b)", "(a|b)", "a|b", "^", "$", "\\1", "\\k<n>", "\\.", "x"] + \
+              [x.encode("utf-8").decode("latin-1") for x in ("é", "\\é", "€", "\\€", "😀", "\\😀", "[é]", "(é)")]     # sources are byte strings held as latin-1 text
 REGEX_QUANT = ["", "", "", "{1}", "{1}?", "{0}", "*", "+", "?", "{2}", "{1,}", "{1,2}", "*?", "+?", "??", "{1,2}?", "{2}?", "{1,1}?", "{2,}?"]
 
 
 def random_regex(rng, hostile=False):
     if hostile:
-        pool = list("ab(|)[]{}^$\\.*+?,-<>:=!k1d0 ") + ["(?", "(?:", "(?<", "{1", "{1,", "[^", "\\k<", "é"]
+        pool = list("ab(|)[]{}^$\\.*+?,-<>:=!k1d0 ") + ["(?", "(?:", "(?<", "{1", "{1,", "[^", "\\k<", "\\"] + [x.encode("utf-8").decode("latin-1") for x in ("é", "\\é", "€", "\\😀")]
         return "".join(rng.choice(pool) for _ in range(rng.randint(0, 10))).replace("/", "")
     return "".join(rng.choice(REGEX_ATOMS) + rng.choice(REGEX_QUANT) for _ in range(rng.randint(1, 5)))
 
